@@ -1,4 +1,5 @@
 import CamVerif.Model.Ack
+import CamVerif.Spec.GenCPAck
 import Driver.Util
 namespace Driver.C08
 open CamVerif CamVerif.Ack CamVerif.Wire Driver
@@ -100,6 +101,31 @@ def handle : List String → String
     match profileOf p, hexToBytes hx with
     | some _, some bs => showEvent bs
     | _, _ => "bad-op"
+  -- the reference encoder (Spec.GenCPAck), so that the harness' conforming generator and
+  -- the encoder the theorems speak about are compared byte for byte
+  | [_, "enc-ack", code, cmd, req, scd] =>
+    match code.toNat?, cmd.toNat?, req.toNat?, hexToBytes scd with
+    | some code, some cmd, some req, some scd =>
+      bytesToHex (Spec.GenCPAck.encodeAck code cmd req scd)
+    | _, _, _, _ => "bad-op"
+  | _ :: "enc-event" :: flag :: req :: single :: evs =>
+    let parseEv (tok : String) : Option Spec.GenCPAck.Event :=
+      match tok.splitOn ":" with
+      | [id, ts, d] => do
+        let id ← id.toNat?
+        let ts ← ts.toNat?
+        let d ← hexToBytes d
+        pure ⟨id, ts, d⟩
+      | _ => none
+    let rec all : List String → Option (List Spec.GenCPAck.Event)
+      | [] => some []
+      | t :: r => do let e ← parseEv t; let es ← all r; pure (e :: es)
+    match flag.toNat?, req.toNat?, all evs with
+    | some flag, some req, some evs =>
+      let (multi, last) :=
+        if single == "1" then (evs.dropLast, evs.getLast?) else (evs, none)
+      bytesToHex (Spec.GenCPAck.encodeEventPacket flag req (Spec.GenCPAck.encodeEvents multi last))
+    | _, _, _ => "bad-op"
   | _ => "bad-op"
 
 end Driver.C08
